@@ -37,12 +37,15 @@ PROP = dict(
         "MM.C21.C21_ws",
         "MM.C21.C21_ws_gate",
         "MM.C21.C21_no_usable_user",
+        "MM.C21.C21_strict_refuted",
     ],
     spec=True,
     rule="op a = (auth enabled?, user list, client byte stream) through Agent.buildSOCKS5Auth -> socks5.NewServer -> Handler.Handle with recording dialer/UDP/ICMP back-ends; "
          "user lists: empty, only unusable entries, plaintext, bcrypt (cost 4, real hashes), both, mixed, duplicate names, junk hash, empty password/name; "
          "streams: method offers {0},{2},{0,2},{2,0},{1,0,2},{},{1} x skipped / malformed / wrong / right credentials x CONNECT/UDP/ICMP/BIND, truncations; "
-         "op w = HTTP Basic gate of the WebSocket listener with Agent.buildSOCKS5CredentialStore; non-trivial = a command was executed or a credential check was reached",
+         "op w = HTTP Basic gate of the WebSocket listener with Agent.buildSOCKS5CredentialStore; op ws = the real WebSocket listener (Server.StartWebSocket, plaintext on loopback) and a real nhooyr client "
+         "(socks5 subprotocol, Basic header, SOCKS5 stream cut into several binary frames, server frames collected), gate x SOCKS5 credentials; "
+         "bcrypt key-length classes on all three paths: stored passwords of 71/72 bytes and 'ab', presented 70/71/72/73/200 bytes sharing the prefix and the NUL forms; non-trivial = a command was executed or a credential check was reached",
     nontrivial=lambda op, out: ("a none" not in out and out.startswith("r ")) or ",0101" in out or ",0100" in out or out in ("pass", "401"),
     trusted_base=[
         "bcrypt is an abstract predicate in the proofs; the engine instantiates it as 'the hash was generated from exactly this password' and T-diff runs real bcrypt (cost 4)",
@@ -51,7 +54,9 @@ PROP = dict(
     ],
     assumptions=[
         "bcrypt uses only the first 72 bytes of password+NUL (cyclically extended): the engine's bcrypt stand-in reproduces exactly that equivalence; in the theorems bcrypt is an arbitrary predicate",
-        "the WebSocket transport itself (nhooyr.io/websocket framing) is outside the model: past the HTTP Basic gate the same Handler.Handle runs on the socket",
+        "the WebSocket transport is exercised for real by op ws (handshake, subprotocol, Basic gate, binary framing); in the model it is the gate followed by the same Handler.Handle",
+        "ws harness synchronisation: the client closes once every goroutine running internal/socks5 or nhooyr.io/websocket code is parked (goroutine profile), deadline 5 s -> `timeout ws-quiesce`",
+        "equality-level matching fails for bcrypt itself (open finding C21-bcrypt-equivalent-password, C21_strict_refuted); C21_holds reads 'matching' as 'the configured hash verifies the presented password'",
     ],
     manifest=dict(
         category="proof",
